@@ -32,8 +32,9 @@ func VerifH_C10_polling_body() {
 	}
 	fb := &fakeBody{data: body, chunk: [2]int{0, 2}[verif.Choose(2)]}
 	declared := verif.Int64()
-	// net/http: a declared length is the exact body length; -1 means unknown
-	verif.Assume(declared == int64(B) || declared == -1)
+	// a declared length (any value, also one that understates the real body, e.g. when a
+	// front end replaced the body by a decompressing reader) or -1 = unknown
+	verif.Assume(declared >= -1 && declared <= 1<<40)
 	ctx, w := newCtx("POST", "4")
 	ctx.Request().ContentLength = declared
 	ctx.Request().Body = fb
@@ -43,7 +44,10 @@ func VerifH_C10_polling_body() {
 	verif.Settle()
 
 	delivered := rec.count("packet")
-	if int64(B) > limit {
+	if declared > limit {
+		verif.Assert(delivered == 0 && len(w.status) == 1 && w.status[0] == 413, "a declared length above the limit is refused with 413")
+		verif.Assert(fb.pos == 0, "without reading the body")
+	} else if int64(B) > limit {
 		verif.Assert(delivered == 0, "a body larger than the limit is never delivered")
 		verif.Assert(len(w.status) == 1 && w.status[0] == 413, "oversized body refused with 413")
 		verif.Assert(int64(fb.pos) <= limit+int64(2), "the server stops consuming an oversized body after at most limit plus a constant")
